@@ -32,18 +32,24 @@ TInit == /\ tid \in 1..Len(Traces) /\ l = 1
 \* observable fields of a record, by kind
 Has(r, f) == f \in DOMAIN r
 SameFn(a, b) == a.f = b.f /\ a.s = b.s /\ a.t = b.t
+\* the function of a record against the observation: one identified function (`fn', probes) or the SET of declared
+\* functions and scalings consistent with the printed numbers (`fns', traces of real models, where two species may
+\* share a function); withScl: the record fixes the scaling too
+FnObserved(p, e, withScl) ==
+  IF Has(e, "fns")
+  THEN \E k \in 1..Len(e.fns) : SameFn(p.fn, e.fns[k]) /\ (IF withScl /\ p.fn # Zero THEN p.scl = e.fns[k].scl ELSE TRUE)
+  ELSE SameFn(p.fn, e.fn) /\ (IF withScl /\ p.fn # Zero THEN p.scl = e.scl ELSE TRUE)
 Match(p, e) ==
   /\ p.t = e.t
   /\ CASE p.t \in {"title", "label", "ghdr"} /\ Has(p, "a") -> Has(e, "a") /\ p.a = e.a /\ p.b = e.b
        [] p.t = "hdr" -> IF Has(p, "N") THEN p.N = e.N /\ p.lo = e.lo /\ p.hi = e.hi ELSE p.ngrid = e.ngrid /\ p.delden = e.delden
-       [] p.t = "rows" -> SameFn(p.fn, e.fn) /\ p.n = e.n /\ p.k0 = e.k0 /\ p.n0 = e.n0
-       [] p.t = "grows" -> SameFn(p.fn, e.fn) /\ p.n = e.n /\ p.k0 = e.k0
-       [] p.t = "recs" -> SameFn(p.fn, e.fn) /\ p.n = e.n /\ p.k0 = e.k0 /\ p.sec = e.sec /\ p.per = e.per
+       [] p.t = "rows" -> FnObserved(p, e, FALSE) /\ p.n = e.n /\ p.k0 = e.k0 /\ p.n0 = e.n0
+       [] p.t = "grows" -> FnObserved(p, e, FALSE) /\ p.n = e.n /\ p.k0 = e.k0
+       [] p.t = "recs" -> FnObserved(p, e, FALSE) /\ p.n = e.n /\ p.k0 = e.k0 /\ p.sec = e.sec /\ p.per = e.per
        [] p.t = "els" -> p.names = e.names
        [] p.t = "grid" -> p.nr = e.nr /\ p.nrho = e.nrho
        [] p.t = "elhdr" -> p.sp = e.sp
-       [] p.t = "cells" -> /\ SameFn(p.fn, e.fn) /\ p.n = e.n /\ p.k0 = e.k0 /\ p.grid = e.grid /\ p.sec = e.sec
-                           /\ (p.fn = Zero \/ p.scl = e.scl)          \* zero is zero under any scaling
+       [] p.t = "cells" -> /\ FnObserved(p, e, TRUE) /\ p.n = e.n /\ p.k0 = e.k0 /\ p.grid = e.grid /\ p.sec = e.sec   \* zero is zero under any scaling
        [] p.t = "count" -> p.n = e.n
        [] p.t = "blk" -> p.kw = e.kw /\ p.n = e.n /\ (p.who = e.who \/ (p.kw = "pair" /\ p.who = <<e.who[2], e.who[1]>>))
        [] OTHER -> TRUE                                            \* comment, title line, blank, spline keyword
